@@ -99,21 +99,32 @@ def judge_plan(res, sizes, W, demands, opt):
     return errs
 
 
-def run_instance(r, sizes, W, demands, solvers):
+LIMITS = [{"max_iter": 0}, {"max_iter": 1}, {"max_iter": 2}, {"stop": 0}, {"stop": 1}, {"max_iter": 1, "max_nodes": 1}, {"max_nodes": 2}]
+
+
+def run_instance(r, sizes, W, demands, solvers, limits=False):
     from solvor.bp import solve_bp
     from solvor.cg import solve_cg
 
     opt = min_rolls(sizes, W, demands)
     single = sum(-(-d // (W // s)) for d, s in zip(demands, sizes))
     nontrivial = opt < single
-    wit0 = {"roll_width": W, "piece_sizes": list(sizes), "demands": list(demands)}
-    for name in solvers:
+    wit00 = {"roll_width": W, "piece_sizes": list(sizes), "demands": list(demands)}
+    runs = [(name, {}) for name in solvers]
+    if limits:
+        runs += [(name, lim) for name in solvers for lim in LIMITS if not ("max_nodes" in lim and name == "solve_cg")]
+    for name, lim in runs:
         fn = solve_cg if name == "solve_cg" else solve_bp
+        kw = {k: v for k, v in lim.items() if k != "stop"}
+        if "stop" in lim:
+            kw["on_progress"] = lambda p_, k_=lim["stop"]: p_.iteration >= k_
+            kw["progress_interval"] = 1
+        wit0 = dict(wit00, limits=lim) if lim else wit00
         r["n"] += 1
         if nontrivial:
             r["nontrivial"] += 1
         try:
-            res = gcall(lambda: fn(list(demands), roll_width=W, piece_sizes=list(sizes)), 20.0, 200_000_000)
+            res = gcall(lambda: fn(list(demands), roll_width=W, piece_sizes=list(sizes), **kw), 20.0, 200_000_000)
         except SolverHang as ex:
             r["outcomes"][name + ":hang"] += 1
             r["counters"]["hangs"] += 1
@@ -134,11 +145,12 @@ def _cs_chunk(params, lo, hi):
     """index = size_code * D^m + demand_code   (demands 0..D-1, D = 4 unless given)"""
     W, m, solvers = params[:3]
     D = params[3] if len(params) > 3 else 4
+    limits = len(params) > 4 and params[4] == "limits"
     r = new_result()
     for idx in range(lo, hi):
         demands = digits(idx % D**m, D, m)
         sizes = [1 + d for d in digits(idx // D**m, W, m)]
-        run_instance(r, sizes, W, demands, solvers)
+        run_instance(r, sizes, W, demands, solvers, limits)
         if len(r["violations"]) >= 40 or r["counters"]["hangs"] >= 2 or too_many_hangs():
             r["capped"] = True
             break
@@ -253,6 +265,11 @@ def jobs(tier, seed):
                 js.append(Job(f"bp_W5_m3_block{b}of4", hi - lo, _cs_block, (W, m, ("solve_bp",), 4, lo), chunk=max(1, (hi - lo) // 256), describe="solve_bp: rotating quarter (VERIF_SEED) of the W=5, three-size instances"))
                 continue
             js.append(Job(f"bp_W{W}_m{m}", size, _cs_chunk, (W, m, ("solve_bp",)), chunk=max(1, size // 256), describe="solve_bp: all size tuples in 1..W, demands 0..3"))
+    # limit parameters: max_iter 0/1/2, early stop through on_progress, max_nodes: a plan returned before column
+    # generation converged (or before the tree is exhausted) must not be labelled OPTIMAL unless it is minimal
+    for W in (3, 4, 5, 6):
+        js.append(Job(f"limits_W{W}_m2", W**2 * 16, _cs_chunk, (W, 2, ("solve_cg", "solve_bp"), 4, "limits"), chunk=max(1, W**2 * 16 // 128), describe="solve_cg and solve_bp with max_iter in {0,1,2}, on_progress stop, max_nodes: two piece sizes, demands 0..3"))
+    js.append(Job("limits_W5_m3_cg", 5**3 * 64, _cs_chunk, (5, 3, ("solve_cg",), 4, "limits"), describe="solve_cg with the limit menu: three piece sizes in 1..5"))
     # two piece types on wider rolls with demands 0..4: sizes sharing a factor that does not divide the width, etc.
     for W in range(9, 17):
         js.append(Job(f"cg_W{W}_m2_demands0to4", W**2 * 25, _cs_chunk, (W, 2, ("solve_cg",), 5), describe="solve_cg: two piece sizes in 1..W, demands 0..4"))
@@ -285,5 +302,6 @@ def replay(v):
             if x["function"] == v["function"]:
                 return x
         return None
-    run_instance(r, w["piece_sizes"], w["roll_width"], w["demands"], (v["function"],))
+    run_instance(r, w["piece_sizes"], w["roll_width"], w["demands"], (v["function"],), limits=bool(w.get("limits")))
+    r["violations"] = [x for x in r["violations"] if x["witness"].get("limits") == w.get("limits")]
     return r["violations"][0] if r["violations"] else None
